@@ -441,6 +441,9 @@ impl TransactionCoordinator {
 
         let start_ts = self.commit_counter.load(Ordering::SeqCst);
 
+        #[cfg(feature = "verif")]
+        crate::verif::sched::exclusive_section("begin_snapshot", self.transactions.is_locked_exclusive());
+
         txs.insert(
             txid,
             TransactionMetadata::new(txid, snapshot.clone(), start_ts),
